@@ -20,18 +20,18 @@ VARIABLES l, owner, nodes, blobs, edges, foreign
 (* owner  : function page -> module, defined on pages in use
    nodes  : sequence of <<external id, label>>, index = internal id + 1
    blobs  : function internal id -> size of the "blob" property
-   edges  : set of <<src, dst>>
+   edges  : function <<src, dst>> -> number of parallel relationships (every create adds one, as in GraphAbs)
    foreign: a foreign write has been seen in this scenario (later content findings name it) *)
 vars == <<l, owner, nodes, blobs, edges, foreign>>
 Emit(f) == PrintT(<<"FINDING", ToJson(f)>>)
 Empty == [x \in {} |-> 0]
 
-Init == l = 1 /\ owner = Empty /\ nodes = <<>> /\ blobs = Empty /\ edges = {} /\ foreign = FALSE
+Init == l = 1 /\ owner = Empty /\ nodes = <<>> /\ blobs = Empty /\ edges = Empty /\ foreign = FALSE
 
 TReset ==
   /\ l <= Len(Rec) /\ Rec[l].ev = "reset"
   /\ (IF Rec[l].open = "ok" THEN TRUE ELSE Emit([prop |-> "C18", at |-> l, id |-> Rec[l].id, kind |-> "open-failed", detail |-> Rec[l].open]))
-  /\ owner' = Empty /\ nodes' = <<>> /\ blobs' = Empty /\ edges' = {} /\ foreign' = FALSE
+  /\ owner' = Empty /\ nodes' = <<>> /\ blobs' = Empty /\ edges' = Empty /\ foreign' = FALSE
   /\ l' = l + 1
 
 (* fold of the pager events of one step: <<owner, sequence of offending events>> *)
@@ -68,7 +68,12 @@ TStep ==
             ELSE Emit([prop |-> "C18", at |-> l, kind |-> "step-failed", op |-> e.op, detail |-> e.res, after_foreign_write |-> foreign']))
         /\ nodes' = IF ok /\ e.op = "nodes" THEN nodes \o [k \in 1..e.info.n |-> <<e.info.first + k - 1, e.info.label>>] ELSE nodes
         /\ blobs' = IF ok /\ e.op = "blobs" THEN [i \in (DOMAIN blobs) \cup ToSet(e.info.set) |-> IF i \in ToSet(e.info.set) THEN e.info.size ELSE blobs[i]] ELSE blobs
-        /\ edges' = IF ok /\ e.op = "edges" THEN edges \cup {<<m[1], m[2]>> : m \in ToSet(e.info.made)} ELSE edges
+        /\ edges' = IF ok /\ e.op = "edges"
+                     THEN LET made == e.info.made
+                              keys == {<<made[i][1], made[i][2]>> : i \in 1..Len(made)}
+                          IN [x \in DOMAIN edges \cup keys |->
+                                (IF x \in DOMAIN edges THEN edges[x] ELSE 0) + Cardinality({i \in 1..Len(made) : <<made[i][1], made[i][2]>> = x})]
+                     ELSE edges
         (* the identities the engine handed out are the dense ones *)
         /\ (IF ~(ok /\ e.op = "nodes") \/ (e.info.first_iid = Len(nodes) /\ e.info.last_iid = Len(nodes) + e.info.n - 1) THEN TRUE
             ELSE Emit([prop |-> "C18", at |-> l, kind |-> "content", what |-> "internal ids not dense", got |-> <<e.info.first_iid, e.info.last_iid>>,
@@ -84,8 +89,10 @@ TObs ==
   /\ LET e == Rec[l]
          n == Len(nodes)
          wrongNodes == {k \in 1..Len(e.nodes) : k > n \/ e.nodes[k] # ExpectedNode(k - 1)}
-         expEdges == {<<"o", <<x[1], x[2]>>>> : x \in edges} \cup {<<"i", <<x[1], x[2]>>>> : x \in edges}
-         gotEdges == ToSet(e.edges)
+         gotKeys == {<<e.edges[i][2][1], e.edges[i][2][2]>> : i \in 1..Len(e.edges)}
+         Got(dir, x) == Cardinality({i \in 1..Len(e.edges) : e.edges[i][1] = dir /\ e.edges[i][2][1] = x[1] /\ e.edges[i][2][2] = x[2]})
+         wrongEdges == {x \in DOMAIN edges \cup gotKeys :
+                          LET want == IF x \in DOMAIN edges THEN edges[x] ELSE 0 IN Got("o", x) # want \/ Got("i", x) # want}
          badHits == {k \in 1..Len(e.lookups) :
                        LET q == e.lookups[k] IN
                        q.indexed /\ Len(q.hits) > 0 /\ \E h \in ToSet(q.hits) : h >= n \/ nodes[h + 1][1] # q.value \/ nodes[h + 1][2] # q.label}
@@ -97,9 +104,10 @@ TObs ==
                        wrong |-> Cardinality(wrongNodes),
                        first_wrong |-> IF wrongNodes = {} THEN <<>> ELSE LET k == Min(wrongNodes) IN <<e.nodes[k], IF k <= n THEN ExpectedNode(k - 1) ELSE <<>>>>,
                        after_foreign_write |-> foreign]))
-        /\ (IF gotEdges = expEdges /\ Len(e.edges) = Cardinality(gotEdges) THEN TRUE
-            ELSE Emit([prop |-> "C18", at |-> l, kind |-> "content", what |-> "relationships", missing |-> Cardinality(expEdges \ gotEdges),
-                       extra |-> Cardinality(gotEdges \ expEdges), repeated |-> Len(e.edges) - Cardinality(gotEdges), after_foreign_write |-> foreign]))
+        /\ (IF wrongEdges = {} THEN TRUE
+            ELSE Emit([prop |-> "C18", at |-> l, kind |-> "content", what |-> "relationships", wrong_keys |-> Cardinality(wrongEdges),
+                       example |-> LET x == CHOOSE y \in wrongEdges : TRUE IN
+                                   <<x, IF x \in DOMAIN edges THEN edges[x] ELSE 0, Got("o", x), Got("i", x)>>, after_foreign_write |-> foreign]))
         /\ (IF badHits = {} THEN TRUE
             ELSE Emit([prop |-> "C18", at |-> l, kind |-> "content", what |-> "index hit on a node that does not have the value",
                        lookup |-> e.lookups[Min(badHits)], after_foreign_write |-> foreign]))
@@ -122,7 +130,10 @@ TCrash ==
          Exp(sq, i) == <<i, sq[i + 1][1], sq[i + 1][2], sq[i + 1][1], BlobLen(i), BlobSum(i)>>
          isPre == Len(e.nodes) = n /\ \A j \in 1..n : e.nodes[j] = Exp(nodes, j - 1)
          isPost == Len(e.nodes) = n + k /\ \A j \in 1..(n + k) : e.nodes[j] = Exp(post, j - 1)
-         expEdges == {<<"o", <<x[1], x[2]>>>> : x \in edges} \cup {<<"i", <<x[1], x[2]>>>> : x \in edges}
+         gotKeys == {<<e.edges[i][2][1], e.edges[i][2][2]>> : i \in 1..Len(e.edges)}
+         Got(dir, x) == Cardinality({i \in 1..Len(e.edges) : e.edges[i][1] = dir /\ e.edges[i][2][1] = x[1] /\ e.edges[i][2][2] = x[2]})
+         edgesOk == \A x \in DOMAIN edges \cup gotKeys :
+                      LET want == IF x \in DOMAIN edges THEN edges[x] ELSE 0 IN Got("o", x) = want /\ Got("i", x) = want
      IN /\ (IF e.open = "ok" THEN TRUE
             ELSE Emit([prop |-> "C18", at |-> l, kind |-> "crash-image-does-not-open", image |-> e.kind, site |-> e.site, io_step |-> e.io_step, detail |-> e.open]))
         /\ (IF e.open # "ok" \/ Len(e.errs) = 0 THEN TRUE
@@ -131,7 +142,7 @@ TCrash ==
         /\ (IF e.open # "ok" \/ Len(e.errs) > 0 \/ isPre \/ isPost THEN TRUE
             ELSE Emit([prop |-> "C18", at |-> l, kind |-> "crash-image-content", image |-> e.kind, site |-> e.site, io_step |-> e.io_step,
                        got_count |-> Len(e.nodes), before |-> n, after |-> n + k, after_foreign_write |-> foreign]))
-        /\ (IF e.open # "ok" \/ Len(e.errs) > 0 \/ ToSet(e.edges) = expEdges THEN TRUE
+        /\ (IF e.open # "ok" \/ Len(e.errs) > 0 \/ edgesOk THEN TRUE
             ELSE Emit([prop |-> "C18", at |-> l, kind |-> "crash-image-content", image |-> e.kind, site |-> e.site, io_step |-> e.io_step,
                        what |-> "relationships", after_foreign_write |-> foreign]))
   /\ UNCHANGED <<owner, nodes, blobs, edges, foreign>>
